@@ -24,7 +24,7 @@ from fractions import Fraction
 
 import numpy as np
 
-from vf.common import (Ctx, Broken, COQ, coq_eval_shards, coqc_file, parse_evals, qlit, coq_list)
+from vf.common import (Ctx, Broken, COQ, coq_eval_shards, coqc_file, coq_make, parse_evals, qlit, coq_list)
 
 HEADER = """From Coq Require Import List Bool ZArith QArith Qcanon.
 From SV Require Import Base.Num C14.Tup C14.CG C14.CGExec C14.Bisect C14.Golden C14.ScalarExec.
@@ -150,7 +150,34 @@ def gen_cg_case(rng, i):
         pk = "identity"
     tol = rng.choice([0.5, 0.25, 0.125, 2.0 ** -5, 2.0 ** -10, 2.0 ** -20])
     atol = rng.choice([0.0, 0.0, 0.125, 2.0 ** -10])
-    return {"n": n, "complex": cplx, "A": enc(A), "b": enc(b), "x0": None if x0 is None else enc(x0),
+    x0kind = "zero-or-moderate"
+    if i % 5 in (2, 4):
+        # non-zero starting point whose initial residual is far above / far below ||b||: the tolerance must be
+        # measured against ||b|| (documented rule max(tol*||b||, atol)), not against ||b - A x0||
+        tol = rng.choice([0.5, 0.25, 0.125, 2.0 ** -5])
+        atol = rng.choice([0.0, 0.0, 0.0, 2.0 ** -10])
+        while True:
+            xs = gen_vec(rng, n, cplx, den=2, lo=-2, hi=2)
+            if np.any(xs):
+                break
+        if i % 5 == 2:                              # ||b - A x0|| >> ||b||
+            x0kind = "residual0>>b"
+            x0 = 64.0 * xs
+            while True:
+                b = gen_vec(rng, n, cplx, den=4, lo=-1, hi=1)
+                if np.any(b):
+                    break
+        else:                                       # ||b - A x0|| << ||b||
+            x0kind = "residual0<<b"
+            x0 = xs
+            while True:
+                e = gen_vec(rng, n, cplx, den=64, lo=-1 / 32, hi=1 / 32)
+                if np.any(e):
+                    break
+            b = A @ x0 + e
+            if not np.any(b):
+                b = b + 1.0
+    return {"n": n, "complex": cplx, "x0_kind": x0kind, "A": enc(A), "b": enc(b), "x0": None if x0 is None else enc(x0),
             "M": None if M is None else enc(M), "precond": pk, "A_kind": akind, "tol": tol, "atol": atol}
 
 
@@ -208,6 +235,28 @@ def cg_oracle(c, maxiter, x, it, rr):
     return out
 
 
+def cg_late_oracle(c, obs):
+    """M = None / identity: the loop must not run an iteration when the true residual of the current iterate is
+    already below max(tol*||b||, atol).  obs[k] is the run with maxiter = k; if it performed k >= 1 iterations then
+    the iterate after k-1 iterations (the result of the run with maxiter = k-1) had to be above the threshold."""
+    if c["precond"] not in ("none", "identity"):
+        return []
+    cplx = c["complex"]
+    A, b = dec(c["A"], cplx), dec(c["b"], cplx)
+    nb = float(np.linalg.norm(b))
+    thr = max(c["tol"] * nb, c["atol"])
+    out = []
+    for (k, x, it, rr), (k0, xp, itp, rrp) in zip(obs[1:], obs[:-1]):
+        if it == k and itp == k0 == k - 1:
+            nrp = float(np.linalg.norm(b - A @ xp))
+            slack = 1e-6 * thr + 1e-11 * (1 + nb + float(np.linalg.norm(A)) * float(np.linalg.norm(xp)))
+            if nrp < thr - slack:
+                out.append(("cg performed another iteration although the true residual was already below "
+                            "max(tol*||b||, atol)", f"stop at {k - 1} iterations: ||b-Ax|| = {nrp} <= {thr}", it, k))
+                break
+    return out
+
+
 def coq_cg_case(c, obs):
     cplx = c["complex"]
     A, b = dec(c["A"], cplx), dec(c["b"], cplx)
@@ -231,11 +280,15 @@ def check_cg(ctx):
             x, it, rr = run_cg_impl(c, k)
             obs.append((k, x, it, rr))
             ctx.count("cg/" + ("complex" if c["complex"] else "real") + "/" + c["A_kind"] + "/M=" + c["precond"]
-                      + ("/x0" if c["x0"] is not None else "/nox0"),
+                      + ("/x0" if c["x0"] is not None else "/nox0")
+                      + ("/" + c["x0_kind"] if c["x0_kind"] != "zero-or-moderate" else ""),
                       {**c, "maxiter": k}, nontrivial=c["n"] >= 2 and k >= 1)
             for what, exp, ob in cg_oracle(c, k, x, it, rr):
                 ctx.violation("cg", what, {**c, "maxiter": k}, expected=exp, observed=ob,
                               oracle="numpy: ||b - A x|| vs reported rule / rel_res (theorems C14_cg_reports_true_residual_*)")
+        for what, exp, ob, k in cg_late_oracle(c, obs):
+            ctx.violation("cg", what, {**c, "maxiter": k}, expected=exp, observed=ob,
+                          oracle="numpy: true residual of the previous iterate (theorem C14_cg_identity_rule_all_iterates)")
         cases.append((c, obs))
     for cplx, okf, fragf, nm, ct in ((False, "r_case_ok", "r_case_fragile", "C14_cg_real", "rcase"),
                                      (True, "c_case_ok", "c_case_fragile", "C14_cg_cplx", "ccase")):
@@ -620,28 +673,69 @@ def check_conv(ctx):
 
 # ------------------------------------------------------------------ bisect
 
+BISECT_SCALAR_DESIGNS = [("a", 1), ("b", -1), ("a", -1), ("b", 1), ("mid", 1), ("mid", -1)]
+BISECT_PLACEMENTS = ["a", "b", "mid", "fine", "b", "a", "quarter"]
+
+
+def place_root(rng, a, b, where):
+    """root exactly on an end point / hit exactly by the first (second) midpoint / never hit"""
+    if where == "a":
+        return a
+    if where == "b":
+        return b
+    if where == "mid":
+        return (a + b) / 2
+    if where == "quarter":
+        return a + (b - a) * rng.choice([1, 3]) / 4
+    return a + (b - a) * rng.randint(1, 2 ** 20 - 1) / 2 ** 20
+
+
 def gen_bisect_case(rng, i):
+    """i % 3 == 2: designed boundary cases -- the root of an element lies EXACTLY on an end point of its bracket
+    (f(a) == 0 or f(b) == 0 in floating point), for increasing and decreasing f, as a scalar call and mixed with
+    interior roots inside one vectorised call; also roots hit exactly by the first midpoint."""
+    designed = (i % 3 == 2)
+    j = i // 3
     kind = "lin" if i % 2 == 0 else "quad"
-    L = rng.randint(1, 5)
     els = []
-    for _ in range(L):
-        a = dy(rng, 8, -4, 3)
-        b = a + rng.choice([0.25, 0.5, 1.0, 2.0, 3.0])
-        if rng.random() < 0.5:                    # coarse root: hit exactly by a midpoint
-            r = a + (b - a) * rng.randint(0, 8) / 8
-        else:                                     # fine root: never hit
-            r = a + (b - a) * rng.randint(1, 2 ** 20 - 1) / 2 ** 20
-        if kind == "lin":
-            s = rng.choice([-1, 1]) * 2.0 ** rng.randint(-2, 2)
-            els.append({"kind": "lin", "s": s, "r": r, "a": a, "b": b})
-        else:
-            if r in (a, b):
-                r = (a + b) / 2
-            r2 = b + rng.choice([0.5, 1.0, 2.0]) if rng.random() < 0.5 else a - rng.choice([0.5, 1.0, 2.0])
-            els.append({"kind": "quad", "s": float(rng.choice([-1, 1])), "r": r, "r2": r2, "a": a, "b": b})
+    if designed:
+        scalar = (j % 3 == 0)
+        L = 1 if scalar else rng.randint(2, 5)
+        for k in range(L):
+            a = dy(rng, 8, -4, 3)
+            b = a + rng.choice([0.25, 0.5, 1.0, 2.0, 4.0])
+            if scalar:
+                where, sg = BISECT_SCALAR_DESIGNS[(j // 3) % len(BISECT_SCALAR_DESIGNS)]
+            else:
+                where = BISECT_PLACEMENTS[(j + k) % len(BISECT_PLACEMENTS)]
+                sg = 1 if (j + k // 2) % 2 == 0 else -1
+            r = place_root(rng, a, b, where)
+            if kind == "lin":
+                els.append({"kind": "lin", "s": sg * 2.0 ** rng.randint(-2, 2), "r": r, "a": a, "b": b, "where": where})
+            else:
+                r2 = b + rng.choice([0.5, 1.0, 2.0]) if rng.random() < 0.5 else a - rng.choice([0.5, 1.0, 2.0])
+                els.append({"kind": "quad", "s": float(sg), "r": r, "r2": r2, "a": a, "b": b, "where": where})
+        maxiter = rng.choice([2, 5, 12, 25])
+    else:
+        for _ in range(rng.randint(1, 5)):
+            a = dy(rng, 8, -4, 3)
+            b = a + rng.choice([0.25, 0.5, 1.0, 2.0, 3.0])
+            if rng.random() < 0.5:                    # coarse root: hit exactly by a midpoint (or an end point)
+                r = a + (b - a) * rng.randint(0, 8) / 8
+            else:                                     # fine root: never hit
+                r = a + (b - a) * rng.randint(1, 2 ** 20 - 1) / 2 ** 20
+            where = "a" if r == a else ("b" if r == b else "interior")
+            if kind == "lin":
+                s_ = rng.choice([-1, 1]) * 2.0 ** rng.randint(-2, 2)
+                els.append({"kind": "lin", "s": s_, "r": r, "a": a, "b": b, "where": where})
+            else:
+                r2 = b + rng.choice([0.5, 1.0, 2.0]) if rng.random() < 0.5 else a - rng.choice([0.5, 1.0, 2.0])
+                els.append({"kind": "quad", "s": float(rng.choice([-1, 1])), "r": r, "r2": r2, "a": a, "b": b,
+                            "where": where})
+        maxiter = rng.choice([1, 2, 5, 12, 25, 40])
     xt = 2.0 ** -rng.randint(4, 30)
     ft = 2.0 ** -rng.randint(2, 28) if kind == "lin" else 1e9
-    return {"kind": kind, "els": els, "xtol": xt, "ftol": ft, "maxiter": rng.choice([1, 2, 5, 12, 25, 40])}
+    return {"kind": kind, "els": els, "xtol": xt, "ftol": ft, "maxiter": maxiter, "designed": designed}
 
 
 def bisect_fn(c):
@@ -668,6 +762,12 @@ def bisect_oracle(c, x, passes):
     for j, e in enumerate(c["els"]):
         if not (e["a"] <= x[j] <= e["b"]):
             out.append(("bisect returns a point outside the initial bracket", [e["a"], e["b"]], float(x[j])))
+        if e["r"] in (e["a"], e["b"]):
+            # theorem C14_bisect_endpoint_root: an end point with f = 0 is never moved; the result is that exact root
+            if x[j] != e["r"]:
+                out.append(("bisect with a root exactly on an end point of the initial bracket does not return that root "
+                            "(the bracket lost its root end point)", e["r"], float(x[j])))
+            continue
         bound = (e["b"] - e["a"]) / 2.0 ** passes
         if passes < c["maxiter"]:
             bound = min(bound, c["xtol"])
@@ -691,9 +791,10 @@ def check_bisect(ctx):
     for i in range(ctx.n(24, 80)):
         c = gen_bisect_case(ctx.rng, i)
         x, az, bz, passes = run_bisect(c)
-        ctx.count("bisect/" + c["kind"], c, nontrivial=len(c["els"]) >= 2)
+        ctx.count("bisect/" + c["kind"] + ("/endpoint-or-midpoint-root" if c["designed"] else ""), c,
+                  nontrivial=len(c["els"]) >= 2 or c["designed"])
         for what, exp, ob in bisect_oracle(c, x, passes):
-            ctx.violation("bisect", what, c, expected=exp, observed=ob, oracle="root of the exact function (C14_bisect_elementwise)")
+            ctx.violation("bisect", what, c, expected=exp, observed=ob, oracle="root of the exact function (C14_bisect_elementwise, C14_bisect_endpoint_root)")
         els = coq_list([f"({coq_fdesc(e)}, {qlit(e['a'])}, {qlit(e['b'])})" for e in c["els"]])
         items.append(f"({els}, {c['maxiter']}%nat, {qlit(c['xtol'])}, {qlit(c['ftol'])}, "
                      f"({coq_list([qlit(v) for v in x])}, {coq_list([qlit(v) for v in az])}, "
@@ -724,6 +825,8 @@ def gen_golden_case(rng, i):
         m = a + (b - a) * rng.randint(1, 255) / 256
         if m == (a + b) / 2:
             m = a + (b - a) * 129 / 256
+        if (i % 6 == 5 or i % 8 == 6) and not userc:   # boundary: minimiser exactly on an end point of the bracket
+            m = [a, b][(i // 6 + len(els)) % 2]
         e = {"kind": kind, "s": 2.0 ** rng.randint(-2, 2), "m": m, "a": a, "b": b, "c": None}
         if kind == "sq":
             e["t"] = dy(rng, 4, -2, 2)
@@ -779,7 +882,9 @@ def check_golden(ctx):
     for i in range(ctx.n(24, 80)):
         c = gen_golden_case(ctx.rng, i)
         x, xerr, passes = run_golden(c)
-        ctx.count("golden/" + c["kind"] + ("/user-c" if c["user_c"] else ""), c, nontrivial=len(c["els"]) >= 2)
+        ctx.count("golden/" + c["kind"] + ("/user-c" if c["user_c"] else "")
+                  + ("/endpoint-minimiser" if any(e["m"] in (e["a"], e["b"]) for e in c["els"]) else ""), c,
+                  nontrivial=len(c["els"]) >= 2)
         for what, exp, ob in golden_oracle(c, x, passes):
             ctx.violation("golden", what, c, expected=exp, observed=ob,
                           oracle="minimiser of the exact unimodal function (C14_golden_elementwise)")
@@ -815,6 +920,8 @@ def run(ctx: Ctx):
     if not getattr(ctx, "no_proofs", False):
         ctx.proofs()
         check_findings(ctx)
+    # the executable instances the case files import are not in the closure of Properties/C14.vo
+    coq_make(["theories/C14/CGExec.vo", "theories/C14/ScalarExec.vo"])
     ctx.trusted += [
         "transcription of the loops of scico.solver.cg / bisect / golden and flax.inverse.cg_solver into "
         "coq/theories/C14/{CG,Bisect,Golden}.v (validated state by state by the correspondence harness, not proved)",
@@ -839,8 +946,12 @@ def run(ctx: Ctx):
 def replay(ctx: Ctx, rec):
     unit, c = rec["unit"], rec["input"]
     if unit == "cg":
-        x, it, rr = run_cg_impl(c, c["maxiter"])
-        return not cg_oracle(c, c["maxiter"], x, it, rr)
+        k = c["maxiter"]
+        x, it, rr = run_cg_impl(c, k)
+        ok = not cg_oracle(c, k, x, it, rr)
+        if k >= 1:
+            ok = ok and not cg_late_oracle(c, [(k - 1, *run_cg_impl(c, k - 1)), (k, x, it, rr)])
+        return ok
     if unit == "cg-model":
         obs = [(k, *run_cg_impl(c, k)) for k in c["maxiters"]]
         okf, fragf = ("c_case_ok", "c_case_fragile") if c["complex"] else ("r_case_ok", "r_case_fragile")
